@@ -887,6 +887,80 @@ def _fold_loop_target_copies(fn: ast.FunctionDef) -> int:
     return done
 
 
+def _index_form_for_mutated_elements(fn: ast.FunctionDef) -> int:
+    """A loop that mutates its iteration element in place (`for row in A: row[:] = f(row)`, also through `enumerate` /
+    `zip` and through a view `p = row[j]`) is put in index form: `for row__i in range(len(A)): row = A[row__i]; ...`,
+    so that the store is a store into `A`.  Loops that only read their element are left alone."""
+    done = 0
+
+    def mutated(name: str, body: list[ast.stmt]) -> bool:
+        seen, work = set(), [name]
+        while work:
+            n = work.pop()
+            if n in seen:
+                continue
+            seen.add(n)
+            for st in body:
+                for sub in ast.walk(st):
+                    if isinstance(sub, (ast.Assign, ast.AugAssign)):
+                        tgts = sub.targets if isinstance(sub, ast.Assign) else [sub.target]
+                        for t in tgts:
+                            b = t
+                            depth = 0
+                            while isinstance(b, ast.Subscript):
+                                b, depth = b.value, depth + 1
+                            if depth and isinstance(b, ast.Name) and b.id == n:
+                                return True
+                        if isinstance(sub, ast.Assign) and len(sub.targets) == 1 and isinstance(sub.targets[0], ast.Name):
+                            v = sub.value
+                            while isinstance(v, ast.Subscript):
+                                v = v.value
+                            if isinstance(v, ast.Name) and v.id == n and isinstance(sub.value, ast.Subscript):
+                                work.append(sub.targets[0].id)
+        return False
+
+    def visit(body: list[ast.stmt]) -> None:
+        nonlocal done
+        for st in body:
+            for field in ("body", "orelse", "finalbody"):
+                inner = getattr(st, field, None)
+                if isinstance(inner, list) and inner and isinstance(inner[0], ast.stmt):
+                    visit(inner)
+            if not isinstance(st, ast.For) or st.orelse:
+                continue
+            it, tgt = st.iter, st.target
+            idx = None
+            if isinstance(it, ast.Call) and _dotted(it.func) == "enumerate" and len(it.args) == 1 and not it.keywords \
+                    and isinstance(tgt, ast.Tuple) and len(tgt.elts) == 2 and isinstance(tgt.elts[0], ast.Name):
+                idx, it, tgt = tgt.elts[0].id, it.args[0], tgt.elts[1]
+            if isinstance(it, ast.Call) and _dotted(it.func) == "zip" and it.args and isinstance(tgt, ast.Tuple) \
+                    and len(tgt.elts) == len(it.args) and all(k.arg == "strict" for k in it.keywords):
+                seqs, elems = list(it.args), list(tgt.elts)
+            elif not isinstance(it, ast.Call):
+                seqs, elems = [it], [tgt]
+            else:
+                continue
+            if not all(isinstance(e, ast.Name) for e in elems):
+                continue
+            if not all(isinstance(q, (ast.Name, ast.Attribute, ast.Subscript)) for q in seqs):
+                continue
+            if not any(mutated(e.id, st.body) for e in elems):
+                continue
+            idx = idx or f"{elems[0].id}__i"
+            binds = [ast.Assign(targets=[ast.Name(id=e.id, ctx=ast.Store())],
+                                value=ast.Subscript(value=q, slice=ast.Name(id=idx, ctx=ast.Load()), ctx=ast.Load()))
+                     for e, q in zip(elems, seqs)]
+            for b in binds:
+                ast.copy_location(b, st)
+            st.target = ast.copy_location(ast.Name(id=idx, ctx=ast.Store()), st.target)
+            st.iter = ast.copy_location(ast.Call(func=ast.Name(id="range", ctx=ast.Load()), args=[
+                ast.Call(func=ast.Name(id="len", ctx=ast.Load()), args=[seqs[0]], keywords=[])], keywords=[]), st.iter)
+            st.body = binds + st.body
+            done += 1
+    visit(fn.body)
+    return done
+
+
 def apply(tree: ast.Module, module: str = "") -> list[str]:
     """Dissolve transparent helpers of `tree` into their callers (in place). -> names inlined (one per call site)."""
     if _has_walrus(tree):
@@ -904,6 +978,7 @@ def apply(tree: ast.Module, module: str = "") -> list[str]:
             aliases += _propagate_self_aliases(n)
             aliases += _sugar_divmod(n)
             aliases += _fold_loop_target_copies(n)
+            aliases += _index_form_for_mutated_elements(n)
             if any(isinstance(c, ast.Call) and _dotted(c.func) in ("itertools.count", "count") for c in ast.walk(n)):
                 aliases += _desugar_count_zip(n)
     if aliases:
